@@ -37,6 +37,12 @@ def build(kind, pos, slots):
         L.append("    " + (doc if pos == "enumerator" else "") + s("op") + "A(" + (doc.replace("\n", "\n        ") if pos == "efield" else "") + s("member" if pos == "efield" else "sibling") + "x: " + (T if pos == "efield" else "int32") + "),")
         L.append("    " + s("sibling2") + "B,")
         L.append("}")
+    elif pos == "base":
+        L.append("[deprecated] interface OldBase {}")
+        L.append(s("sibling") + "struct Before { " + s("sibling2") + "z: bool }")
+        L.append(s("member") + "interface I : OldBase {")
+        L.append("    " + s("op") + "op()")
+        L.append("}")
     elif pos == "alias":
         L.append(doc + s("member") + "typealias A = " + T)
         L.append(s("sibling") + "typealias A2 = int32")
@@ -45,11 +51,11 @@ def build(kind, pos, slots):
 
 # which placements enclose (or are) the element concerned, per position
 ENCLOSING = {"field": ["member", "def"], "struct": ["def"], "param": ["member", "op", "def"], "ret": ["member", "op", "def"], "op": ["op", "def"], "iface": ["def"],
-             "efield": ["member", "op", "def"], "enumerator": ["op", "def"], "enum": ["def"], "alias": ["member"]}
+             "efield": ["member", "op", "def"], "enumerator": ["op", "def"], "enum": ["def"], "alias": ["member"], "base": ["member"]}
 SLOTS = {"field": ["def", "member", "sibling"], "struct": ["def", "member", "sibling"], "param": ["def", "op", "member", "sibling", "sibling2"], "ret": ["def", "op", "member", "sibling", "sibling2"],
          "op": ["def", "op", "sibling", "sibling2"], "iface": ["def", "op", "sibling"], "efield": ["def", "op", "member", "sibling2"], "enumerator": ["def", "op", "sibling", "sibling2"],
-         "enum": ["def", "op", "sibling2"], "alias": ["member", "sibling"]}
-SCENARIOS = [("Deprecated", p) for p in ("field", "param", "ret", "efield", "alias")] + \
+         "enum": ["def", "op", "sibling2"], "alias": ["member", "sibling"], "base": ["member", "op", "sibling", "sibling2"]}
+SCENARIOS = [("Deprecated", p) for p in ("field", "param", "ret", "efield", "alias", "base")] + \
             [(k, p) for k in ("BrokenDocLink", "MalformedDocComment") for p in ("struct", "field", "iface", "op", "enum", "enumerator", "alias")] + \
             [("IncorrectDocComment", p) for p in ("struct", "field", "iface", "op", "enum", "alias")]
 
